@@ -1,3 +1,4 @@
+import RossModel.Lemmas.SourceTie
 import RossModel.Lemmas.Event
 /-!
 # C12 — A packet is never ambiguous between event kinds
@@ -24,5 +25,9 @@ theorem C12_decode_unique (k₁ k₂ : Kind) (p : Packet) (e₁ e₂ : Event)
 theorem C12_cross_reject (pad : Pad) (e : Event) (k : Kind) (hk : k ≠ e.kind) (hwf : e.WF) :
     ∃ r, decode k (encode pad e) = .err r :=
   Ross.cross_reject pad e k hk hwf
+
+/-! ### tie to the source text (constants regenerated from /repo by `bin/extract` on every run) -/
+/-- the sixteen code constants are the model's pairwise distinct codes and every decoder checks its own -/
+theorem C12_src_codes : (SrcTie.codesOk && SrcTie.constUseOk) = true := by decide
 
 end Ross.Props
